@@ -48,6 +48,40 @@ def sh_user_quote(w):
         if "'" in w else "'" + w + "'"
 
 
+_STYLE_OK = {}
+
+
+def sh_user_quote_styled(w, n):
+    """the same word as a user may write it inside an option string, in one
+    of three styles chosen by the slot number: single quotes, bare (words made
+    of characters that are literal inside a word, such as '#', '=' or ':'),
+    double quotes.  Each
+    (style, word) is confirmed once with the real /bin/sh; if sh does not
+    give the word back, the single-quoted form is used."""
+    style = n % 3
+    if style == 0 or w == '' or '\n' in w:
+        return sh_user_quote(w)
+    # bfg9000's splitter knows quotes but (by design) no backslash escapes:
+    # the styles stay inside the sub-language on which it and sh agree
+    if style == 1:      # bare: only characters that are literal inside a word
+        if not all(c.isalnum() or c in '#=:,@%+~./-_' or ord(c) > 127
+                   for c in w) or w[0] in '#~':
+            return sh_user_quote(w)
+        text = w
+    else:               # double quotes around text without " \ $ `
+        if any(c in '"\\$`' for c in w):
+            return sh_user_quote(w)
+        text = '"' + w + '"'
+    key = (style, w)
+    if key not in _STYLE_OK:
+        import subprocess
+        r = subprocess.run(['/bin/sh', '-c', "printf '%s' " + text],
+                           capture_output=True)
+        _STYLE_OK[key] = r.returncode == 0 and \
+            r.stdout == w.encode('utf-8', 'surrogateescape')
+    return text if _STYLE_OK[key] else sh_user_quote(w)
+
+
 class Slot:
     __slots__ = ('id', 'pos', 'word', 'key')
 
@@ -127,7 +161,8 @@ def write_project(root, slots, backend):
             if s.pos == 'copt_list':
                 o = repr(['-DVB=' + i, w, '-DVE=' + i])
             elif s.pos == 'copt_str':
-                o = repr('-DVB=%s %s -DVE=%s' % (i, sh_user_quote(w), i))
+                o = repr('-DVB=%s %s -DVE=%s' % (
+                    i, sh_user_quote_styled(w, int(i[1:])), i))
             else:
                 o = "['-DVB=%s', opts.define(%r, %r), '-DVE=%s']" % (
                     i, 'N' + i, w, i)
@@ -138,7 +173,8 @@ def write_project(root, slots, backend):
             if s.pos == 'lopt_list':
                 o = repr(['-DVB=' + i, w, '-DVE=' + i])
             else:
-                o = repr('-DVB=%s %s -DVE=%s' % (i, sh_user_quote(w), i))
+                o = repr('-DVB=%s %s -DVE=%s' % (
+                    i, sh_user_quote_styled(w, int(i[1:])), i))
             L.append("executable(%r, [%r], link_options=%s)" % (
                 'p' + i, 's%s.c' % i, o))
             targets.append('p' + i)
